@@ -86,7 +86,7 @@ BOUND_EXPECT = {
     ("l_ident", 1): ("I", 1, "1"), ("l_ident", 2): ("D", None, "maxn"),
     ("l_op", 2): ("X", None, "2*3"), ("l_inf", 1): ("I", 0, "0"), ("l_inf", 2): ("I", 2147483647, "?"),
     ("l_fun", 2): ("F", None, "fb(2)"), ("l_sum", 2): ("X", None, "maxn+1"),
-    ("l_neg", 1): ("X", None, "-1"), ("l_neg", 2): ("I", 4, "4"),
+    ("l_neg", 1): ("M", -1, "-1"), ("l_neg", 2): ("I", 4, "4"),       # M: a negative literal (the negation of a literal)
     ("l_lit", 1): ("I", 2, "2"), ("l_lit", 2): ("I", 17, "17"),
 }
 
@@ -228,6 +228,38 @@ def main(tier, seed):
         hist["schemas"] += 1
         det_check("g%d" % k, text, ["exp2cxx", "exp2python", "exppp", "schema_scanner"])
     det_check("bounds", BOUND_SCHEMA, ["exp2cxx", "exp2python", "exppp", "schema_scanner"])
+    # small schemas whose defined types are enumerations / selects and renamings of them only (no buffer of an earlier
+    # declaration to fall back on: anything printed from memory that was never filled shows from run to run)
+    det_check("renamed_enum", "SCHEMA renum;\nTYPE colour = ENUMERATION OF (red, green, blue);\nEND_TYPE;\nTYPE paint = colour;\nEND_TYPE;\n"
+              "TYPE coat = paint;\nEND_TYPE;\nENTITY wall;\n  finish : paint;\n  second : coat;\nEND_ENTITY;\nEND_SCHEMA;\n", ["exp2cxx", "exp2python", "exppp", "schema_scanner"])
+    det_check("renamed_select", "SCHEMA rensel;\nENTITY a;\nEND_ENTITY;\nENTITY b;\nEND_ENTITY;\nTYPE ab = SELECT (a, b);\nEND_TYPE;\nTYPE ab2 = ab;\nEND_TYPE;\n"
+              "ENTITY holder;\n  x : ab2;\n  y : ab;\nEND_ENTITY;\nEND_SCHEMA;\n", ["exp2cxx", "exp2python", "exppp", "schema_scanner"])
+    # the same small schemas under valgrind: output computed from memory that was never written is not a function of
+    # the schema text, whether or not two runs of this build happen to agree
+    def uninit_check(tag, text, which):
+        nonlocal evals, oracle_fail
+        vdir = os.path.join(wroot, "vg_" + tag)
+        os.makedirs(vdir)
+        fexp = os.path.join(vdir, "schema.exp")
+        open(fexp, "w", encoding="utf-8").write(text)
+        for tname in which:
+            cwd = os.path.join(vdir, tname)
+            os.makedirs(cwd)
+            rcv, sov, sev = sh(["valgrind", "-q", "--error-exitcode=97", "--undef-value-errors=yes"] + tools[tname] + [fexp], cwd=cwd, timeout=600)
+            evals += 1
+            hist["valgrind_runs"] = hist.get("valgrind_runs", 0) + 1
+            if rcv == 97 or "ninitialised" in sev:
+                oracle_fail += 1
+                pth_ = save("c12-uninit-%s.exp" % tag, text)
+                first_ = [l_ for l_ in sev.split("\n") if "ninitialised" in l_ or " at 0x" in l_ or " by 0x" in l_][:4]
+                res.violation("%s on %s computes its output from memory that was never written (valgrind): %s" % (tname, tag, " | ".join(x_.strip()[:110] for x_ in first_)),
+                              {"input_file": pth_, "replay": "valgrind -q %s %s" % (" ".join(tools[tname]), pth_)})
+    if shutil.which("valgrind"):
+        for tag_, txt_ in (("renamed_enum", "SCHEMA renum;\nTYPE colour = ENUMERATION OF (red, green, blue);\nEND_TYPE;\nTYPE paint = colour;\nEND_TYPE;\nENTITY wall;\n  finish : paint;\nEND_ENTITY;\nEND_SCHEMA;\n"),
+                           ("bounds", BOUND_SCHEMA)):
+            uninit_check(tag_, txt_, ["exp2cxx", "exp2python", "exppp"])
+    det_check("only_enum", "SCHEMA onlyenum;\nTYPE colour = ENUMERATION OF (red, green);\nEND_TYPE;\nENTITY wall;\n  finish : colour;\nEND_ENTITY;\nEND_SCHEMA;\n",
+              ["exp2cxx", "exp2python", "exppp", "schema_scanner"])
     # text that is not ASCII inside string literals, on lines near the wrapping limit (variant b runs in a UTF-8 locale)
     UTF8_SCHEMA = ("SCHEMA utf8_text;\nCONSTANT\n  names : LIST OF STRING := [" + ", ".join("'%s'" % w for w in
                    ["Z\u00fcrich", "Krak\u00f3w", "Besan\u00e7on", "M\u00e1laga", "\u00c5rhus", "\u0141\u00f3d\u017a", "Gy\u0151r", "\u0160kofja Loka", "\u00c7anakkale",
